@@ -414,6 +414,30 @@ def regenerate() -> str:
     else:
         status = "unchanged"
     probs = t.get("_problems")
+    try:  # C15: data of plugins/manager.py, plugins/base.py (a generated file of its own: Generated/PluginTables.lean)
+        from . import tables_plugins
+
+        status += tables_plugins.regenerate()
+    except Exception as e:  # noqa: BLE001 - a missing table shows up as a failing build of Properties/C15.lean
+        status += f"; plugin tables: {e!r}"
+    try:  # C16: `str.isprintable` of the running interpreter (a generated file of its own: Generated/PyUnicode.lean)
+        from . import tables_c16
+
+        status += tables_c16.regenerate()
+    except Exception as e:  # noqa: BLE001 - a missing table shows up as a failing build of Properties/C16.lean
+        status += f"; C16 unicode table: {e!r}"
+    try:  # C11: `class Upload` of base_model.py (a generated file of its own: Generated/UploadTables.lean)
+        from . import tables_upload
+
+        status += tables_upload.regenerate()
+    except Exception as e:  # noqa: BLE001 - a missing table shows up as a failing build of Properties/C11.lean
+        status += f"; upload tables: {e!r}"
+    try:  # C19: separator of the joined schema text (a generated file of its own: Generated/SchemaTextTables.lean)
+        from . import tables_c19
+
+        status += tables_c19.regenerate()
+    except Exception as e:  # noqa: BLE001 - a missing table shows up as a failing build of Properties/C19.lean
+        status += f"; C19 text tables: {e!r}"
     return status + (f"; problems: {probs}" if probs else "")
 
 
